@@ -60,11 +60,11 @@ type LockGuard struct {
 	Name string
 	Req  lreq
 	// exactly one of:
-	CallOf    *types.Func  // call of this method/function object (interface method objects welcome)
-	InvokeOf  types.Type   // call of a value whose type is this named func type
-	Field     *types.Var   // access of this field: reads need Req, writes need W
-	ReadReq   lreq         // for Field: requirement of reads (Req is for writes)
-	Invalidat bool         // this op invalidates tracked "getter" values (R01.4)
+	CallOf    *types.Func // call of this method/function object (interface method objects welcome)
+	InvokeOf  types.Type  // call of a value whose type is this named func type
+	Field     *types.Var  // access of this field: reads need Req, writes need W
+	ReadReq   lreq        // for Field: requirement of reads (Req is for writes)
+	Invalidat bool        // this op invalidates tracked "getter" values (R01.4)
 }
 
 // LockSpec configures the analysis of one lock.
@@ -80,19 +80,19 @@ type LockSpec struct {
 	// Entry points must not have a precondition.
 	IsEntry func(fd *ast.FuncDecl) bool
 	// Stale-value tracking.
-	StaleTypes   []types.Type          // variables of these types are hold-scoped
-	StaleExemptF map[string]bool       // field selections that stay valid (e.g. SizeBytes)
-	InvokeStale  map[types.Type]bool   // types whose *invocation* is the use (func-typed)
-	NoBlockWhileHeld bool              // channel receive / select while held is a violation
+	StaleTypes       []types.Type        // variables of these types are hold-scoped
+	StaleExemptF     map[string]bool     // field selections that stay valid (e.g. SizeBytes)
+	InvokeStale      map[types.Type]bool // types whose *invocation* is the use (func-typed)
+	NoBlockWhileHeld bool                // channel receive / select while held is a violation
 }
 
 type lsFunc struct {
-	name    string
-	node    ast.Node // *ast.FuncDecl or *ast.FuncLit
-	body    *ast.BlockStmt
-	obj     *types.Func
-	parent  *lsFunc
-	pre     lreq
+	name   string
+	node   ast.Node // *ast.FuncDecl or *ast.FuncLit
+	body   *ast.BlockStmt
+	obj    *types.Func
+	parent *lsFunc
+	pre    lreq
 	// effect on a lock held at entry
 	exitReleased bool // some exit leaves the entry-held lock released
 	exitHeld     bool
